@@ -20,7 +20,8 @@ import (
 
 // solve: run the parallel solver as the CLI does and print every solution
 // delivered on the channel.
-//   solve iterations=N duration_ms=D runs=R starts=S det=0|1 repeat=K snap=0|1 cancel_ms=C
+//
+//	solve iterations=N duration_ms=D runs=R starts=S det=0|1 repeat=K snap=0|1 cancel_ms=C
 func runSolve(b block) {
 	var input schema.Input
 	var opts factory.Options
